@@ -844,6 +844,7 @@ func (h cachedHistogram) ValueBucket(
 
 	return reportSamplesFunc(func(value int64) {
 		m.Value.Count = value
+		verifhook.At("m3b_set")
 		rep.reportCopyMetric(m, size, bucket, bucketID)
 	})
 }
@@ -875,6 +876,7 @@ func (h cachedHistogram) DurationBucket(
 
 	return reportSamplesFunc(func(value int64) {
 		m.Value.Count = value
+		verifhook.At("m3b_set")
 		rep.reportCopyMetric(m, size, bucket, bucketID)
 	})
 }
